@@ -43,7 +43,9 @@ RULE = (
     "FAILED because the scripted downloader closed its message connections and reset the file connection after k "
     "bytes of a rate-limited upload, so that the failure notice needs a new slow connection); after the (last) call "
     "returned the peer may send PeerTransferQueueFailed / PeerTransferReply(allowed=False) with a generated reason "
-    "(incl. the empty string) or PeerUploadFailed for the file "
+    "(incl. the empty string) or PeerUploadFailed for the file, or repeat its PeerTransferQueue for an upload the "
+    "user paused / aborted (may be refused or ignored, never restarted); after an abort / remove (single-call cases) "
+    "the user may block and later unblock that same peer, or un-share and later re-share + rescan the directory "
     "+ 200 s of virtual time afterwards. "
     "Oracle, per stopped transfer, after the call returned at T: (1) no PeerTransferQueue / PeerTransferRequest / "
     "PeerPlaceInQueueRequest / PeerUploadFailed naming the file, no PeerTransferReply(allowed) and no file-connection "
@@ -71,6 +73,9 @@ ASSUMPTIONS = [
     "scripted peers never re-queue a file after the user call returned and re-offer it at most once (late offer, "
     "which the client has to refuse; otherwise they are muted at T); refusals "
     "(PeerTransferReply allowed=False, PeerTransferQueueFailed) answering a request the peer sent earlier are legitimate",
+    "a repeated queue request of the peer is only generated for PAUSED / ABORTED uploads (after a remove or for a "
+    "finished upload it is a legitimate new request); blocking the same peer / un-sharing is only generated after "
+    "abort / remove (after a pause the block itself legitimately aborts the upload with reason Blocked)",
     "a scripted uploader keeps one upload per file: a repeated PeerTransferQueue for a file it already offers is ignored",
     "a remote-queue task and a download-initialisation task of the same transfer may coexist (the peer may offer a "
     "file while the queue request is still being delivered): 'at most one' is checked per routine",
@@ -89,7 +94,8 @@ OPS = ['abort', 'pause', 'remove']
 TRIGGER_KINDS = ('status', 'adduser', 'add', 'friend', 'block', 'rescan', 'sharedir')
 STIMULI = ['friend', 'block', 'rescan', 'sharedir']
 WAIT_STATES = ('FAILED', 'INCOMPLETE', 'INITIALIZING', 'UPLOADING', 'DOWNLOADING')
-PEER_MSGS = ('queue_failed', 'upload_failed', 'reply_refused')
+PEER_MSGS = ('queue_failed', 'upload_failed', 'reply_refused', 'requeue')
+USER_STIMS = ('block', 'unshare')
 REASONS = ['', 'Cancelled', 'File not shared.', 'Queued', 'Complete', 'Banned', 'x']
 DIRECT = ['accept', 'refuse', 'hang', 'reset']
 INDIRECT = ['pierce', 'cannot', 'silent']
@@ -247,7 +253,8 @@ def case_strategy(draw, focus=None):
                     'steps': draw(st.sampled_from([0, 0, 1, 2, 3, 4, 6])), 'then': then,
                     'gap': draw(st.sampled_from([0, 1, 60, 1000, 4000])) if then else 0,
                     'steps2': draw(st.sampled_from([0, 0, 1, 3])) if then else 0, 'after_state': None, 'delay': 0,
-                    'peer_msg': _peer_msg(draw) if draw(st.integers(0, 7)) == 0 else None})
+                    'peer_msg': _peer_msg(draw) if draw(st.integers(0, 7)) == 0 else None,
+                    'user_stim': _user_stim(draw) if draw(st.integers(0, 9)) == 0 else None})
     first_op = min(o['at'] for o in ops)
     ntrig = draw(st.integers(0, 6))
     trig = []
@@ -337,7 +344,15 @@ def offline_case(draw):
             'exec_ms': draw(st.sampled_from([0, 1, 3, 5])), 'peers': peers, 'triggers': trig, 'ops': ops}
 
 
-def _peer_msg(draw, delay_hi=5000):
+def _user_stim(draw):
+    return {'kind': draw(st.sampled_from(['block', 'block', 'unshare'])),
+            'delay': draw(st.sampled_from([1, 100, 1500, 4000])), 'undo': draw(st.sampled_from([1200, 3000, 8000]))}
+
+
+def _peer_msg(draw, delay_hi=5000, upload=False):
+    if upload:
+        return {'kind': draw(st.sampled_from(['requeue', 'requeue', 'requeue', 'reply_refused'])),
+                'reason': draw(st.sampled_from(REASONS)), 'delay': draw(st.sampled_from([1, 100, 1000, 4000]))}
     return {'kind': draw(st.sampled_from(PEER_MSGS + ('queue_failed', 'queue_failed'))),
             'reason': draw(st.sampled_from(REASONS + ['', '', '', ''])),
             'delay': draw(st.sampled_from([1, 2, 100, 1000]) | st.integers(1, delay_hi))}
@@ -349,7 +364,7 @@ def peermsg_case(draw):
     offer: PeerTransferQueueFailed / PeerTransferReply(allowed=False) with a generated reason (incl. the empty string)
     or PeerUploadFailed; biased to downloads whose own queue attempt still waited for a slow connect (not remotely
     queued) when the call was made."""
-    role = draw(st.sampled_from(['U', 'U', 'U', 'D']))
+    role = draw(st.sampled_from(['U', 'U', 'D']))
     p = draw(_peer(role, slow_bias=True))
     p['xfers'] = [{'at': draw(st.sampled_from([0, 0, 40])), 'size': draw(st.integers(1000, 20000))}
                   for _ in range(draw(st.sampled_from([1, 1, 2])))]
@@ -373,7 +388,7 @@ def peermsg_case(draw):
         peers.append(draw(_peer(draw(st.sampled_from(['U', 'D'])), slow_bias=draw(st.booleans()))))
     ops = [{'peer': 0, 'xfer': xi, 'op': op, 'at': at, 'steps': draw(st.sampled_from([0, 0, 1, 3])), 'then': then,
             'gap': draw(st.sampled_from([0, 60, 1000])) if then else 0, 'steps2': 0, 'after_state': None, 'delay': 0,
-            'peer_msg': _peer_msg(draw)}]
+            'peer_msg': _peer_msg(draw, upload=(role == 'D'))}]
     trig = []
     for _ in range(draw(st.integers(0, 2))):
         trig.append({'at': draw(st.integers(0, at + 8000)), 'kind': draw(st.sampled_from(['status', 'adduser', 'add'])),
@@ -509,7 +524,10 @@ def sequence_case(draw):
     if variant == 'fresh' and draw(st.booleans()):
         first, then = draw(st.sampled_from(OPS)), None
     gap = draw(st.sampled_from([0, 1, 60, 1000, 4000]))
-    ops = [{'peer': 0, 'xfer': xi, 'op': first, 'at': at,
+    extra_kind = draw(st.sampled_from([None, 'peer', 'user', 'user']))
+    ops = [{'peer': 0, 'xfer': xi, 'op': first, 'at': at, 'after_state': None, 'delay': 0,
+            'peer_msg': _peer_msg(draw, upload=(role == 'D')) if extra_kind == 'peer' else None,
+            'user_stim': _user_stim(draw) if extra_kind == 'user' else None,
             'steps': draw(st.sampled_from([0, 2, 4, 6] if variant == 'fresh' else [0, 0, 1, 3])), 'then': then,
             'gap': gap, 'steps2': draw(st.sampled_from([0, 0, 1, 3]))}]
     trig = []
@@ -547,6 +565,12 @@ def _clean_peer_msg(m):
     reason = m.get('reason')
     return {'kind': m['kind'], 'reason': reason if reason in REASONS else 'Cancelled',
             'delay': _int(m.get('delay'), 1, 20000, 1)}
+
+
+def _clean_user_stim(m):
+    if not isinstance(m, dict) or m.get('kind') not in USER_STIMS:
+        return None
+    return {'kind': m['kind'], 'delay': _int(m.get('delay'), 1, 20000, 1), 'undo': _int(m.get('undo'), 1, 20000, 1000)}
 
 
 def _sanitise(case):
@@ -605,7 +629,8 @@ def _sanitise(case):
                     'then': o.get('then') if o.get('then') in ('abort', 'remove') else None,
                     'gap': _int(o.get('gap'), 0, 20000, 0), 'steps2': _int(o.get('steps2'), 0, 8, 0),
                     'after_state': o.get('after_state') if o.get('after_state') in WAIT_STATES else None,
-                    'delay': _int(o.get('delay'), 0, 20000, 0), 'peer_msg': _clean_peer_msg(o.get('peer_msg'))})
+                    'delay': _int(o.get('delay'), 0, 20000, 0), 'peer_msg': _clean_peer_msg(o.get('peer_msg')),
+                    'user_stim': _clean_user_stim(o.get('user_stim'))})
     if not ops:
         return None
     trig = []
@@ -1003,6 +1028,36 @@ def _run(c, res, tmp):
                         e['routine'] for e in reg.neg[idx2:] if e['transfer'] is t and not e['task'].done()})
                     rec['in_manager_at_return'] = any(x is t for x in tm.transfers)
             send_peer_msg(o, rec, t)
+            user_stimulus(o, rec, t)
+
+        def user_stimulus(o, rec, t):
+            # after the user aborted / removed the transfer a second abort reason becomes true and disappears again:
+            # the user blocks and later unblocks that peer, or un-shares and later re-shares (+ rescan) the directory.
+            # Not generated after a pause: there the block itself legitimately aborts the upload (reason Blocked)
+            us = o['user_stim']
+            if us is None or rec['status'] != 'returned' or rec['final_op'] not in ('abort', 'remove') or \
+                    len(c['ops']) != 1:
+                return
+            if us['kind'] == 'unshare' and not has_d:
+                return
+            rec['user_stim'] = us
+
+            def do():
+                if us['kind'] == 'block':
+                    s.users.blocked[t.username] = BlockingFlag.ALL
+                elif dir_shared[0]:
+                    dir_shared[0] = False
+                    client.shares.remove_shared_directory(share)
+
+            def undo():
+                if us['kind'] == 'block':
+                    s.users.blocked.pop(t.username, None)
+                elif not dir_shared[0]:
+                    dir_shared[0] = True
+                    client.shares.add_shared_directory(share)
+                    side_tasks.append(asyncio.ensure_future(client.shares.scan()))
+            loop.call_later(us['delay'] / 1000.0, do)
+            loop.call_later((us['delay'] + us['undo']) / 1000.0, undo)
 
         def send_peer_msg(o, rec, t):
             # the peer says something about the file after the (last) call returned: a refusal / failure notice, never
@@ -1015,6 +1070,14 @@ def _run(c, res, tmp):
 
             def go():
                 if not world.net.can_connect_in(world.client_port(False)):
+                    return
+                if pm['kind'] == 'requeue':
+                    # the peer repeats its queue request for a file the user paused / aborted: the client may refuse
+                    # it (PeerTransferQueueFailed) or ignore it, it may not restart the upload. (Not sent after a
+                    # remove or for a finished upload: there it is a legitimate new request)
+                    if rec['direction'] == 'UPLOAD' and rec['final_op'] in ('pause', 'abort') and \
+                            t.state.VALUE.name in ('PAUSED', 'ABORTED'):
+                        sc.queue(t.remote_path)
                     return
                 if pm['kind'] == 'queue_failed':
                     msg = M.PeerTransferQueueFailed.Request(t.remote_path, pm['reason'])
@@ -1038,6 +1101,7 @@ def _run(c, res, tmp):
         op_tasks = []
         side_tasks = []
         nstim = [0]
+        dir_shared = [True]
         ghost = 0
         last = 0
         for at, _, _, ev in events:
@@ -1076,7 +1140,7 @@ def _run(c, res, tmp):
                     # configuration changes of the user that make the transfer manager re-evaluate its uploads
                     # (shares-changed management cycle); none of them concerns a scripted peer or a shared file
                     stim = tr['kind']
-                    if stim == 'sharedir' and not has_d:
+                    if stim == 'sharedir' and not (has_d and dir_shared[0]):
                         stim = 'friend'
                     nstim[0] += 1
                     if stim == 'friend':
@@ -1106,7 +1170,8 @@ def _run(c, res, tmp):
         if any(o['after_state'] for o in c['ops']):
             # calls aimed at a state wait for it (at most 90 s)
             await asyncio.wait(op_tasks, timeout=125.0)
-        extra = max([o['peer_msg']['delay'] for o in c['ops'] if o['peer_msg']] or [0]) / 1000.0
+        extra = max([o['peer_msg']['delay'] for o in c['ops'] if o['peer_msg']] +
+                    [o['user_stim']['delay'] + o['user_stim']['undo'] for o in c['ops'] if o['user_stim']] + [0]) / 1000.0
         end = max(t0 + last / 1000.0, loop.time() if any(o['after_state'] for o in c['ops']) else 0.0) + extra + HORIZON
         while loop.time() < end - EPS:
             await asyncio.sleep(min(5.0, end - loop.time()))
@@ -1385,16 +1450,17 @@ def _judge(c, out, res, names, loop_errors):
 
 def run_shard(ctx):
     k = 1 if ctx.tier == 'quick' else 27         # cases per shard = k * the numbers below
-    ctx.explore(case_strategy(), 70 * k, salt=0)
-    ctx.explore(case_strategy(focus='U'), 20 * k, salt=1)
-    ctx.explore(case_strategy(focus='D'), 20 * k, salt=2)
-    ctx.explore(case_strategy(focus='mid'), 20 * k, salt=3)
-    ctx.explore(case_strategy(focus='reoffer'), 22 * k, salt=4)
-    ctx.explore(offline_case(), 25 * k, salt=5)
+    # targeted profiles first: on an overloaded machine the soft time budget then cuts the broad exploration
     ctx.explore(sequence_case(), 36 * k, salt=6)
-    ctx.explore(both_case(), 22 * k, salt=7)
     ctx.explore(peermsg_case(), 28 * k, salt=8)
     ctx.explore(upfail_case(), 22 * k, salt=9)
+    ctx.explore(both_case(), 22 * k, salt=7)
+    ctx.explore(offline_case(), 25 * k, salt=5)
+    ctx.explore(case_strategy(focus='reoffer'), 22 * k, salt=4)
+    ctx.explore(case_strategy(focus='mid'), 20 * k, salt=3)
+    ctx.explore(case_strategy(focus='D'), 20 * k, salt=2)
+    ctx.explore(case_strategy(focus='U'), 20 * k, salt=1)
+    ctx.explore(case_strategy(), 70 * k, salt=0)
 
 
 MANIFEST_ENTRY = {
